@@ -53,6 +53,8 @@ type vfGenOpts struct {
 	minRBuf   int
 	// trailingShutdown: a quarter of the transfers end with Shutdown() by one side
 	trailingShutdown bool
+	// prStreams: some streams of a transfer scenario are made partially reliable
+	prStreams bool
 }
 
 func genSideCfg(rt *rapid.T, label string, o vfGenOpts) vfSideCfg {
